@@ -64,7 +64,7 @@ func unmarshal(rawData []byte) (packet Packet, bytesprocessed int, err error) {
 		return nil, 0, err
 	}
 
-	bytesprocessed = int(h.Length+1) * 4
+	bytesprocessed = (int(h.Length) + 1) * 4
 	if bytesprocessed > len(rawData) {
 		return nil, 0, errPacketTooShort
 	}
